@@ -197,6 +197,9 @@ def _rename(node, patch_):
         if not member:
             raise Exception("Member not found: %s %s" % (node_.name, patch_))
         member.name = new_name
+        for other in node_.members:
+            if getattr(other, "bound", None) == orig_name:
+                other.bound = new_name
         return node_
 
     if len(patch_.params) == 1:
